@@ -4,6 +4,7 @@ import (
 	"fmt"
 	"math/rand"
 	"net"
+	"runtime"
 	"strings"
 	"sync"
 	"time"
@@ -27,6 +28,9 @@ func init() {
 			for ri, n := range rounds {
 				privateRound(rep, d, distinct, cfg, ci, ri, n, steps, seed, tier, troublemaker)
 			}
+			// one long round on two processors: pooled headers and buffers change hands between
+			// the connections' goroutines thousands of times
+			privateRound(rep, d, distinct, cfg, ci, len(rounds)|1, 16, 6*steps, seed, tier, troublemaker)
 		}
 		rep.Distinct = len(distinct)
 	}
@@ -40,6 +44,13 @@ func init() {
 func privateRound(rep *Report, d *Driver, distinct map[string]bool, cfg StackCfg, ci, ri, n, steps int, seed int64, tier string,
 	background func(st *Stack, stop <-chan struct{}, wg *sync.WaitGroup)) {
 	st := GetStack(cfg)
+	if ri%2 == 1 {
+		// every other round on one or two processors: the server's goroutines then share per-P
+		// pools and run queues, so pooled objects pass from one connection's goroutine to
+		// another's all the time (what the race detector needs to see a use after Put)
+		old := runtime.GOMAXPROCS(1 + (ri/2)%2)
+		defer runtime.GOMAXPROCS(old)
+	}
 
 	st.Reset()
 	if cfg.L1 == "inmem" {
@@ -68,6 +79,16 @@ func privateRound(rep *Report, d *Driver, distinct map[string]bool, cfg StackCfg
 			cmd := g.failingCommand(proto, now)
 			if cmd.Kind == "raw" {
 				continue
+			}
+			if steps >= 100 && g.r.Intn(2) == 0 {
+				// the long round: half the commands are deletes and touches (the paths that talk
+				// to the backend through short-lived pooled headers and little else)
+				k := g.keys[g.r.Intn(len(g.keys))]
+				if g.r.Intn(2) == 0 {
+					cmd = Command{Kind: "delete", Key: k, Opaque: uint32(s)}
+				} else {
+					cmd = Command{Kind: "touch", Key: k, Exptime: uint32(200 + g.r.Intn(50)), Opaque: uint32(s)}
+				}
 			}
 			if proto == "text" && cmd.Kind == "gat" {
 				cmd.Kind = "touch"
@@ -156,7 +177,7 @@ func privateRound(rep *Report, d *Driver, distinct map[string]bool, cfg StackCfg
 // (keys with a prefix the fake backends are told to fail) — gets, multi-key gets, writes — while the
 // private connections run. Its keys share lock stripes with theirs; it is not judged itself.
 func troublemaker(st *Stack, stop <-chan struct{}, wg *sync.WaitGroup) {
-	if st.Cfg.L1 == "inmem" || st.Cfg.L1 == "batched" {
+	if st.Cfg.L1 == "inmem" {
 		return
 	}
 	st.L1.FailPrefix, st.L1.FailStatus = "zz-bad-", 0x0084
